@@ -349,8 +349,10 @@ def tlvLoop (t : TagSpec) (enc : Enc) (isBer : Bool)
           match dispatch tag (data.drop offset) with
           | .err p => .err (tag :: p)
           | .panic => .panic
-          | .ok (v, read) =>
-            tlvLoop t enc isBer known dispatch fuel data (offset + read) (insertKV tag v acc)
+          | .ok (v, read') =>
+            -- an element that consumed neither tag nor value bytes would be read again forever
+            if read = 0 ∧ read' = 0 then .err [tag]
+            else tlvLoop t enc isBer known dispatch fuel data (offset + read') (insertKV tag v acc)
 
 /-- the scan of `unpackSubfieldsByBitmap` over bit numbers `i = cur .. len` -/
 def bitmapScan (bm : Bitmap) (dispatch : Tag → Bytes → Option (UR (Value × Nat))) :
